@@ -120,6 +120,30 @@ mutual
         obsFields o m w fuel w.sd.fields ++ " }"
 end
 
+/-! ### array observations (what `obsType` prints as ` n<count>` and per element) -/
+
+/-- `x().ElementCount()`: the units the accessor's (clamped) storage holds divided by the element
+size — known as soon as the accessor returns real storage, also for a truncated array. -/
+def arrCount (o : Oracle) (w : SView) (f : Field) : Option Nat :=
+  match f.kind with
+  | .phys start size (.array _ es) _ =>
+    match physStorage o w f start size with
+    | some st => some (if es = 0 then 0 else st.size / es)
+    | none => none
+  | _ => none
+
+/-- `x()[i].Ok() ? some (x()[i].Read()) : none` for an array of scalars, `i < ElementCount()`. -/
+def arrElem (o : Oracle) (w : SView) (f : Field) (i : Nat) : Option Val :=
+  match f.kind with
+  | .phys start size (.array (.scalar k bits req) es) bo =>
+    match physStorage o w f start size with
+    | some st =>
+      if es ≠ 0 ∧ i < st.size / es then
+        leafRead o w k bits req ((st.sub (es * i) es).adaptFor w.sd.unit 1 bo bits)
+      else none
+    | none => none
+  | _ => none
+
 /-! ### Equals / TryToCopyFrom (C20) -/
 
 /-- `Equals` of two views of the same type over un-adapted storages. -/
